@@ -414,13 +414,25 @@ func TestVerifC12(t *testing.T) {
 	m := r.Pick(6000, 2000000)
 	for i := 0; i < m; i++ {
 		a, b := vRandomRA(rr), vRandomRA(rr)
-		oneUnit := false
+		oneUnit, caseOnly := false, false
 		if rr.Intn(3) == 0 {
 			// mostly-equal pair: perturb a copy
 			b2, err := vRoundTrip(a)
 			if err == nil {
 				b = b2
-				switch rr.Intn(4) {
+				switch rr.Intn(5) {
+				case 4:
+					// a search-list name that differs in letter case only: the contents of
+					// the option differ (the wire carries the case as written)
+					for _, o := range b.Options {
+						if d, ok := o.(*ndp.DNSSearchList); ok && len(d.DomainNames) > 0 {
+							d.DomainNames = append([]string(nil), d.DomainNames...)
+							j := rr.Intn(len(d.DomainNames))
+							d.DomainNames[j] = strings.ToUpper(d.DomainNames[j][:1]) + d.DomainNames[j][1:]
+							caseOnly = true
+							break
+						}
+					}
 				case 0:
 					b.CurrentHopLimit ^= 1
 				case 1:
@@ -472,6 +484,9 @@ func TestVerifC12(t *testing.T) {
 		if r.Mine(id) {
 			if oneUnit {
 				r.Count("pairs_differing_by_one_unit", 1)
+			}
+			if caseOnly {
+				r.Count("pairs_differing_in_letter_case_only", 1)
 			}
 			check(id, a, b)
 			check(id+"/swapped", b, a)
